@@ -370,7 +370,7 @@ func judgeHist(w *core.W, c *histCase, prop string) {
 				models[m].Commit(idx, mr, forms)
 				okMethods = append(okMethods, m)
 			}
-			fr, pan := flameRegister(f, st.Method, st.Route, idx, &hit, &seen)
+			fr, pan := flameRegisterVia(f, strings.Contains(st.Method, ","), st.Method, st.Route, idx, &hit, &seen)
 			if (pan != nil) != refused {
 				w.Count("abandoned:accept-disagreement(C08)")
 				return
